@@ -3,7 +3,9 @@
 string field of one of its parameter objects that the contract does not list in `modifies`
 (`p.attr = p.attr + "_"`), on a scratch clone, and expect at least one obligation to fail (or the function to leave the
 subset).  A function whose proof still goes through has a frame the engine does not check.
-usage: tools/framemut.py            (all proof sets, one subprocess each)
+With --result the returned value is perturbed instead (str: + "_", bool: not, int: + 1): a contract that still verifies says
+nothing about the result (listed as WEAK: type-level contracts are expected there, anything else is a vacuous postcondition).
+usage: tools/framemut.py [--result] [PID ...]    (all proof sets, one subprocess each)
        tools/framemut.py --set <contract modules> <schema> <invs> <key> ...   (internal)"""
 import ast
 import importlib
@@ -49,6 +51,29 @@ def pick_target(key, con, schema, repo):
     return None
 
 
+def perturb_returns(path, fnode, kind):
+    """rewrite every `return e` of the function (not of nested functions) into a return of a different value"""
+    src = open(path).read()
+    lines = src.split('\n')
+    rets = []
+
+    def walk(n):
+        for c in ast.iter_child_nodes(n):
+            if isinstance(c, (ast.FunctionDef, ast.Lambda, ast.ClassDef)):
+                continue
+            if isinstance(c, ast.Return) and c.value is not None:
+                rets.append(c.value)
+            walk(c)
+    walk(fnode)
+    wrap = {'str': ('(', ') + "_"'), 'bool': ('not (', ')'), 'int': ('(', ') + 1')}[kind]
+    for v in sorted(rets, key=lambda v: (-v.lineno, -v.col_offset)):
+        l0, c0, l1, c1 = v.lineno - 1, v.col_offset, v.end_lineno - 1, v.end_col_offset
+        lines[l1] = lines[l1][:c1] + wrap[1] + lines[l1][c1:]
+        lines[l0] = lines[l0][:c0] + wrap[0] + lines[l0][c0:]
+    open(path, 'w').write('\n'.join(lines))
+    return len(rets)
+
+
 def mutate(path, fnode, stmt):
     lines = open(path).read().split('\n')
     body = fnode.body
@@ -76,6 +101,13 @@ def run_set(mods, schema_name, invs_name, keys):
     for k in keys:
         if k not in repo.functions or k not in api.CONTRACTS or ':' in repo.functions[k].path:
             continue          # lemmas live in /verif, not in the repository
+        if MODE == 'result':
+            rt = api.CONTRACTS[k].returns
+            if rt not in ('str', 'bool', 'int', 'estr', 'nestr'):
+                print('   skip %-55s returns %s' % (k, rt))
+                continue
+            plan.append((k, ('result', 'str' if rt in ('estr', 'nestr') else rt)))
+            continue
         t = pick_target(k, api.CONTRACTS[k], schema, repo)
         if t is None:
             print('   skip %-55s no parameter object with a string field outside modifies' % k)
@@ -92,11 +124,14 @@ def run_set(mods, schema_name, invs_name, keys):
         byfile = {}
         for k, (name, attr) in plan:
             fi = repo.functions[k]
-            byfile.setdefault(fi.path, []).append((fi.node.lineno, fi.node, '%s.%s = %s.%s + "_"' % (name, attr, name, attr)))
+            byfile.setdefault(fi.path, []).append((fi.node.lineno, fi.node, '%s.%s = %s.%s + "_"' % (name, attr, name, attr), attr))
         for path, items in byfile.items():
             rel = os.path.relpath(path, os.environ.get('VERIF_REPO', '/repo')) if os.path.isabs(path) else path
-            for _, node, stmt in sorted(items, key=lambda x: -x[0]):
-                mutate(os.path.join(clone, rel), node, stmt)
+            for _, node, stmt, attr in sorted(items, key=lambda x: -x[0]):
+                if MODE == 'result':
+                    perturb_returns(os.path.join(clone, rel), node, attr)
+                else:
+                    mutate(os.path.join(clone, rel), node, stmt)
         code = ('import sys, importlib, os; sys.path.insert(0, %r)\n'
                 'from pyvc.extract import Repo\nfrom pyvc.vc import Engine\nfrom pyvc.run import discharge\nfrom pyvc import api\n'
                 'import contracts.schema as sch\n'
@@ -122,10 +157,10 @@ def run_set(mods, schema_name, invs_name, keys):
             if not line.startswith('RES '):
                 continue
             _, k, n, bad, frame, *rest = line.split(' ', 5)
-            verdict = 'caught' if int(bad) or (rest and rest[0].strip()) else 'HOLE'
-            holes += verdict == 'HOLE'
-            print('   %-6s %-55s write to %s.%s: %s of %s obligations fail (%s frame) %s' % (
-                verdict, k, tgt[k][0], tgt[k][1], bad, n, frame, rest[0] if rest else ''))
+            verdict = 'caught' if int(bad) or (rest and rest[0].strip()) else ('WEAK' if MODE == 'result' else 'HOLE')
+            holes += verdict in ('HOLE', 'WEAK')
+            print('   %-6s %-55s %s %s.%s: %s of %s obligations fail (%s frame) %s' % (
+                verdict, k, 'perturbed' if MODE == 'result' else 'write to', tgt[k][0], tgt[k][1], bad, n, frame, rest[0] if rest else ''))
         if out.returncode:
             print(out.stderr[-1500:])
             holes += 1
@@ -133,6 +168,11 @@ def run_set(mods, schema_name, invs_name, keys):
         shutil.rmtree(tmp, ignore_errors=True)
     return holes
 
+
+MODE = 'frame'
+if '--result' in sys.argv:
+    MODE = 'result'
+    sys.argv.remove('--result')
 
 if __name__ == '__main__':
     if len(sys.argv) > 1 and sys.argv[1] == '--set':
@@ -147,6 +187,6 @@ if __name__ == '__main__':
             continue
         print('==', pid)
         sys.stdout.flush()
-        rc |= subprocess.call([sys.executable, __file__, '--set', ','.join(mods), schema, invs or '-'] + keys)
-    print('frame self-test:', 'HOLES FOUND' if rc else 'every inserted write is caught')
+        rc |= subprocess.call([sys.executable, __file__] + (['--result'] if MODE == 'result' else []) + ['--set', ','.join(mods), schema, invs or '-'] + keys)
+    print('%s self-test:' % MODE, ('HOLES FOUND' if MODE == 'frame' else 'some contracts do not constrain the result') if rc else 'every change is caught')
     sys.exit(rc)
